@@ -541,6 +541,8 @@ func init() {
 				add("second-generation-k1", merge(base, p("preput", 2, "premerge", 1, "k", 1, "ops", opPut|opDelete, "dfs_lo", 60, "dfs_hi", 100, "crash2", 0)))
 				// a finished merge that was NOT adopted (no restart) followed by another Merge in the same process
 				add("merge-merge-without-restart-k2", merge(base, p("preput", 1, "k", 2, "ops", opPut|opDelete|opMerge, "dfs_lo", 60, "dfs_hi", 100, "crash2", 0)))
+				// Merge anywhere in the history, writes after it, then the adopting restart (crash armed throughout)
+				add("merge-then-writes-then-adoption-k3", merge(base, p("preput", 1, "k", 3, "ops", opPut|opDelete|opMerge, "dfs_lo", 60, "dfs_hi", 100, "crash2", 0, "tailops", opRestart)))
 			} else {
 				add("k3-rot", merge(base, p("k", 3, "ops", opPut|opDelete, "dfs_lo", 60, "dfs_hi", 130)))
 				add("k2-batch", merge(base, p("k", 2, "ops", opPut|opBatch, "bmax", 1, "dfs_lo", 100, "dfs_hi", 150)))
